@@ -21,12 +21,12 @@ import (
 // C08: parser/compiler totality.
 
 type c08Result struct {
-	Err      string `json:"err,omitempty"`
-	HasTree  bool   `json:"tree"`
-	FmtErr   string `json:"fmt_err,omitempty"`
-	FmtOK    bool   `json:"fmt_ok"`
-	Alloc    uint64 `json:"alloc"`
-	Ns       int64  `json:"ns"`
+	Err     string `json:"err,omitempty"`
+	HasTree bool   `json:"tree"`
+	FmtErr  string `json:"fmt_err,omitempty"`
+	FmtOK   bool   `json:"fmt_ok"`
+	Alloc   uint64 `json:"alloc"`
+	Ns      int64  `json:"ns"`
 }
 
 // labelFamily: the input family of a label ("mutant:swap@12" -> "mutant").
